@@ -156,19 +156,58 @@ def start_index_source(ctx: Context, rule: str) -> None:
 
 
 def face_edge_fill_range(ctx: Context, rule: str) -> None:
+    from .common import facts
     fi = ctx.func(f"{TOPO}.has_valid_face_edge_connectivity")
     m = Matcher(ctx, fi)
-    ok = m.has('$lo = _get_start_index($da)', '$hi = self.edge_count + $lo')
+    ok = m.has('$lo = _get_start_index($da)') and (m.stmt('$hi = self.edge_count + $lo') is not None or m.stmt('$hi = $lo + self.edge_count') is not None)
     inclusive = exclusive = None
+    test = None
     if ok:
-        for alt in ('if $lo <= $fill <= $hi:\n    ...', 'if $fill >= $lo and $fill <= $hi:\n    ...'):
-            inclusive = inclusive or m.stmt(alt)
-        for alt in ('if $lo <= $fill < $hi:\n    ...', 'if $fill >= $lo and $fill < $hi:\n    ...'):
-            exclusive = exclusive or m.stmt(alt)
-    test = inclusive or exclusive
+        lo, hi = m.name('lo'), m.name('hi')
+        # the refusal: the `return False` reached when the fill value lies in the range (however the comparison is spelt or nested)
+        for r in fi.returns():
+            if const_value(r.value, None) is not False:
+                continue
+            rel = {'lower': None, 'upper': None}
+            subj = set()
+            for t, pol in facts(ctx, fi, r, expand=False):
+                if not pol:
+                    continue
+                try:
+                    c = ast.parse(t, mode='eval').body
+                except SyntaxError:
+                    continue
+                if not (isinstance(c, ast.Compare) and len(c.ops) == 1):
+                    continue
+                a, op, b = norm_text(c.left), type(c.ops[0]), norm_text(c.comparators[0])
+                if (a == lo and op is ast.LtE) or (b == lo and op is ast.GtE):
+                    rel['lower'] = 'inclusive'
+                    subj.add(b if a == lo else a)
+                if (b == hi and op is ast.LtE) or (a == hi and op is ast.GtE):
+                    rel['upper'] = 'inclusive'
+                    subj.add(a if b == hi else b)
+                if (b == hi and op is ast.Lt) or (a == hi and op is ast.Gt):
+                    rel['upper'] = 'exclusive'
+                    subj.add(a if b == hi else b)
+            if rel['lower'] == 'inclusive' and rel['upper'] and len(subj) == 1:
+                test = r
+                if rel['upper'] == 'inclusive':
+                    inclusive = r
+                else:
+                    exclusive = r
+
+    class _T:          # what the report shows for the range test
+        pass
+    shown = None
+    if test is not None:
+        from .common import enclosing_ifs
+        ifs_ = [st for st, inb in enclosing_ifs(fi, test) if inb]
+        shown = ifs_[-1] if ifs_ else None
     ctx.check(rule, ok and test is not None, "a fill value of the face-edge table is compared with the table's own index range, which starts at its start_index and is edge_count long", fi,
               test or fi.node, construct='range test on start_index, start_index + edge_count')
-    if test is not None:
+    if test is not None and shown is not None:
+        test = shown
+    if test is not None and isinstance(test, ast.If):
         ctx.check(rule, exclusive is not None, "the index range is [start_index, start_index + edge_count): a fill value equal to start_index + edge_count is outside it and the supplied table is used as given", fi,
                   test, construct=f"upper bound inclusive: {norm_text(test.test)}" if exclusive is None else f"upper bound exclusive: {norm_text(test.test)}")
         # edge_count raises without an edge dimension: the comparison needs one
